@@ -35,6 +35,7 @@ type specEnv struct {
 	li   *loopInfo
 	errs *[]string
 	depth int
+	preferLocals bool
 }
 
 func (e *specEnv) errf(format string, args ...any) {
@@ -470,6 +471,16 @@ func (e *specEnv) call(x *ast.CallExpr) specVal {
 				return specVal{Eq(l, "0"), tBool}
 			}
 		}
+	case "ghost":
+		if need(1) {
+			id, ok := x.Args[0].(*ast.Ident)
+			if !ok {
+				e.errf("ghost: expects a name")
+				break
+			}
+			c := tr.comp("ghost:"+id.Name, nil, "Int", false)
+			return specVal{tr.read(tr.heapOf(e.st, c)), tInt}
+		}
 	case "nolocks":
 		return specVal{tr.noLocksHeld(e.st), tBool}
 	case "done":
@@ -540,17 +551,22 @@ func (e *specEnv) applySpec(sf *SpecFunc, x *ast.CallExpr) specVal {
 	}
 	t := app(fname, ts...)
 	// unfolding instance for closed applications (once per distinct application)
-	if !tr.openTerm(t) && e.depth < 2 {
-		key := "unfold:" + t + "@" + fmt.Sprint(e.st == e.old)
-		if !tr.unfolded[key] {
-			tr.unfolded[key] = true
+	if !sf.abstract && !tr.openTerm(t) && e.depth < 2 {
+		pre := "unfolding:" + t
+		if !tr.unfolded[pre] {
+			tr.unfolded[pre] = true // guards against re-entrant unfolding of the same application
 			n := &specEnv{a: nil, tr: tr, pkg: sf.pkg, st: e.st, old: e.old, vars: bind, errs: e.errs, depth: e.depth + 1}
 			body := n.eval(sf.body)
 			bt := body.t
 			if isInterface(sf.rtype) && body.typ != nil && !isInterface(body.typ) {
 				bt = e.toVal(body)
 			}
-			tr.assume(Eq(t, bt), "unfolding of "+sf.name)
+			delete(tr.unfolded, pre)
+			key := "unfold:" + t + "=" + bt
+			if !tr.unfolded[key] {
+				tr.unfolded[key] = true
+				tr.assume(Eq(t, bt), "unfolding of "+sf.name)
+			}
 		}
 	}
 	return specVal{t, sf.rtype}
@@ -562,6 +578,11 @@ func (e *specEnv) applySpec(sf *SpecFunc, x *ast.CallExpr) specVal {
 func (a *Act) lookupLocal(e *specEnv, name string) (specVal, bool) {
 	name = strings.TrimPrefix(name, "_S_")
 	fn := a.fn
+	if e.li != nil || e.preferLocals {
+		if v, ok := a.lookupLocalVar(e, name); ok {
+			return v, true
+		}
+	}
 	// contract parameter names (positional)
 	if a.contract != nil {
 		for i, p := range a.contract.params {
@@ -573,6 +594,33 @@ func (a *Act) lookupLocal(e *specEnv, name string) (specVal, bool) {
 	for _, p := range fn.Params {
 		if p.Name() == name {
 			return specVal{a.val(p), p.Type()}, true
+		}
+	}
+	if v, ok := a.lookupLocalVar(e, name); ok {
+		return v, true
+	}
+	// package-level variables
+	root := fn
+	for root.Parent() != nil {
+		root = root.Parent()
+	}
+	if root.Pkg != nil {
+		if g, ok := root.Pkg.Members[name].(*ssa.Global); ok {
+			pt := g.Type().Underlying().(*types.Pointer).Elem()
+			lv := &LV{kind: lvCell, typ: pt, addr: a.tr.eng.globalAddr(g)}
+			return specVal{a.load(e.st, lv), pt}, true
+		}
+	}
+	return specVal{}, false
+}
+
+func (a *Act) lookupLocalVar(e *specEnv, name string) (specVal, bool) {
+	fn := a.fn
+	for _, fv := range fn.FreeVars {
+		if fv.Name() == name {
+			pt := fv.Type().Underlying().(*types.Pointer).Elem()
+			lv := a.lvOf(e.st, fv)
+			return specVal{a.load(e.st, lv), pt}, true
 		}
 	}
 	// loop phis
@@ -702,7 +750,7 @@ func (a *Act) atReturn(st *State, in *ssa.Return, results []Term) {
 	vars := a.bindContract(fc, st, a.args, results, a.fn.Signature, true)
 	e := &specEnv{a: a, tr: a.tr, pkg: fc.pkg, st: st, old: a.entryState, vars: vars, errs: &errs}
 	for _, c := range fc.ensures {
-		if !a.tr.wantClause(c) {
+		if !a.tr.wantClause(c) || c.assumed() {
 			continue
 		}
 		g := e.evalBool(c.expr)
@@ -762,18 +810,36 @@ func (a *Act) applyContract(st *State, callee *ssa.Function, fc *FuncContract, a
 	for i := range results {
 		rt := sig.Results().At(i).Type()
 		results[i] = tr.freshConst("r_"+lastName(fc.name), a.sortOf(rt))
-		a.assumeWF(st, rt, results[i], 1)
 	}
 	a.frameForCall(st, fc, vars, pre)
+	for i := range results {
+		a.assumeWF(st, sig.Results().At(i).Type(), results[i], 1)
+	}
 	post := &specEnv{a: nil, tr: tr, pkg: fc.pkg, st: st, old: pre, errs: &errs,
 		vars: a.bindContract(fc, st, args, results, sig, true)}
 	for _, c := range fc.ensures {
+		if c.assumed() {
+			tr.usedAssumed[fc.name+": "+c.text] = true
+		}
 		tr.assume(Implies(st.reach, post.evalBool(c.expr)), fmt.Sprintf("ensures of %s: %s", fc.name, c.text))
+	}
+	for _, c := range fc.hints {
+		tr.callHints = append(tr.callHints, Implies(st.reach, post.evalBool(c.expr)))
 	}
 	for _, m := range errs {
 		tr.specErr(fmt.Sprintf("%s (call from %s): %s", fc.name, fnName(a.fn), m))
 	}
 	return results
+}
+
+// assumed: the clause is tagged @assume: used by callers, not proved on the body.
+func (c *clause) assumed() bool {
+	for _, t := range c.tags {
+		if t == "assume" {
+			return true
+		}
+	}
+	return false
 }
 
 // frameForCall updates the heap for a modular call according to the assigns clauses.
@@ -793,6 +859,12 @@ func (a *Act) frameForCall(st *State, fc *FuncContract, vars map[string]specVal,
 				mode = "listed"
 			}
 			compNames = append(compNames, strings.TrimPrefix(as, "comp:"))
+		case strings.HasPrefix(as, "ghost:"):
+			if mode == "default" {
+				mode = "listed"
+			}
+			compNames = append(compNames, as)
+			tr.comp(as, nil, "Int", false)
 		}
 	}
 	if fc.pure {
@@ -812,9 +884,16 @@ func (a *Act) frameForCall(st *State, fc *FuncContract, vars map[string]specVal,
 		case c.value:
 			// callee may only allocate (C02 frame, checked on the callee)
 			st.heap[cn] = tr.heapFrame(prev, func(key []Term) Term { return app("<=", key[0], now) }, "call_"+cn)
+		case mode == "nothing" && len(c.keySorts) == 0:
+			// unchanged
 		case mode == "nothing":
 			if strings.HasPrefix(cn, "cell:") || strings.HasPrefix(cn, "elem:") || strings.HasPrefix(cn, "m") {
 				st.heap[cn] = tr.heapFrame(prev, func(key []Term) Term { return app("<=", key[0], now) }, "call_"+cn)
+			}
+		case len(c.keySorts) == 0:
+			// nullary ghost component: kept unless listed (or mode default)
+			if mode == "default" || listed[cn] {
+				st.heap[cn] = tr.newHeapBase(c, "call_"+cn)
 			}
 		case mode == "listed" && !listed[cn]:
 			st.heap[cn] = tr.heapFrame(prev, func(key []Term) Term { return app("<=", key[0], now) }, "call_"+cn)
@@ -839,6 +918,10 @@ func (fc *FuncContract) mods(tr *Tr, mods map[string]bool) bool {
 		case strings.HasPrefix(as, "comp:"):
 			mode = "listed"
 			mods[strings.TrimPrefix(as, "comp:")] = true
+		case strings.HasPrefix(as, "ghost:"):
+			mode = "listed"
+			mods[as] = true
+			tr.comp(as, nil, "Int", false)
 		}
 	}
 	// allocation touches value components
@@ -886,9 +969,11 @@ func (a *Act) applyFieldContract(st *State, fc *FuncContract, fv Term, args []Te
 	for i := range results {
 		rt := sig.Results().At(i).Type()
 		results[i] = tr.freshConst("r_"+lastName(fc.name), a.sortOf(rt))
-		a.assumeWF(st, rt, results[i], 1)
 	}
 	a.frameForCall(st, fc, vars, pre)
+	for i := range results {
+		a.assumeWF(st, sig.Results().At(i).Type(), results[i], 1)
+	}
 	pvars := a.bindContract(fc, st, args, results, sig, false)
 	pvars["self"] = specVal{fv, tInt}
 	post := &specEnv{a: nil, tr: tr, pkg: fc.pkg, st: st, old: pre, errs: &errs, vars: pvars}
@@ -905,4 +990,48 @@ func (a *Act) applyFieldContract(st *State, fc *FuncContract, fv Term, args []Te
 func (a *Act) tcoBackEdge(st *State, li *loopInfo) {
 	// implemented with the EVAL refinement (evalspec.go)
 	a.tr.eng.tcoBackEdge(a, st, li)
+}
+
+// valOKDef: the data invariant of interface values, from the `invariant` clauses.
+func (tr *Tr) valOKDef() string {
+	if tr.valOKText != "" {
+		return tr.valOKText
+	}
+	sorts := tr.eng.sorts
+	var conds []Term
+	var errs []string
+	for _, inv := range tr.eng.contracts.invs {
+		key := typeKey(inv.typ)
+		c, ok := sorts.ctors[key]
+		if !ok {
+			continue
+		}
+		tr.boundVars = append(tr.boundVars, "vv_inv")
+		e := &specEnv{tr: tr, pkg: inv.pkg, vars: map[string]specVal{inv.param: {app(c.sel, "vv_inv"), inv.typ}}, errs: &errs, st: tr.rootAct.entryState, old: tr.rootAct.entryState}
+		body := e.evalBool(inv.body)
+		tr.boundVars = tr.boundVars[:len(tr.boundVars)-1]
+		conds = append(conds, fmt.Sprintf("(=> ((_ is %s) vv_inv) %s)", c.ctor, body))
+	}
+	for _, m := range errs {
+		tr.specErr("invariant: " + m)
+	}
+	tr.valOKText = fmt.Sprintf("(define-fun valOK ((vv_inv Val)) Bool %s)\n", And(conds...))
+	return tr.valOKText
+}
+
+// typeInvFor: invariant of concrete type t applied to term x ("true" if none).
+func (tr *Tr) typeInvFor(t types.Type, x Term, st *State) Term {
+	var errs []string
+	out := []Term{}
+	for _, inv := range tr.eng.contracts.invs {
+		if !types.Identical(inv.typ, t) {
+			continue
+		}
+		e := &specEnv{tr: tr, pkg: inv.pkg, vars: map[string]specVal{inv.param: {x, inv.typ}}, errs: &errs, st: st, old: st}
+		out = append(out, e.evalBool(inv.body))
+	}
+	for _, m := range errs {
+		tr.specErr("invariant: " + m)
+	}
+	return And(out...)
 }
